@@ -249,7 +249,7 @@ def _raw_families(run, O, tok):
     """Bounded-exhaustive families first, then large trees, then random deeper trees."""
     rng = run.rng
     F = O.Filler(tok)
-    style = itertools.cycle((0, 1, 2, 3, 0, 1))
+    style = itertools.cycle((0, 1, 2, 3, 4, 0, 1, 5))      # 4, 5: the run's text sits in a w:t (inside m:r / inside w:r)
     leaf = lambda: [F.leaf(next(style))]
     plain = lambda: [O.R(tok())]
     ALL = list(O.STRUCT) + list(O.CONTAINERS)
@@ -271,6 +271,23 @@ def _raw_families(run, O, tok):
         yield "sym", O.root([O.R(tok() + c)])
         yield "sym", O.root([O.N("f", {"pr": 0}, [["num", [O.R(c + tok())]], ["den", [O.R(tok() + c + c + tok())]]])])
     yield "sym", O.root([O.R(tok() + "".join(O.SYMBOL_CHARS) + tok())])
+    # ---- run text carried by WordprocessingML elements (<m:r><w:t>, <w:r><w:t> in the math zone): at top level,
+    #      between math runs, and as each operand of each element (alone, and with every operand in that form)
+    for w in (1, 2):
+        wleaf = lambda w=w: [O.R(tok(), w=w)]
+        for para in (0, 1):
+            yield "WT", O.root(wleaf(), para=para)
+            yield "WT", O.root([O.R(tok()), O.R(tok(), p=2, sp=1, w=w), O.R(tok())], para=para)
+        yield "WT", O.root([O.R(tok() + "αβ≤" + tok(), w=w), O.R("∞" + tok(), w=3 - w)])
+        for kind in ALL:
+            co, cs = O.canon_variant(kind)
+            if kind == "func":
+                co = dict(co, name="<token>")
+            for ip in (0, 1):
+                yield "WT", O.root([inst(kind, co, cs, ip=ip, lf=wleaf)])
+            for at in range(O.slot_count(kind, cs)):
+                yield "WT", O.root([inst(kind, co, cs, at=at, inner=wleaf, lf=plain)])
+                yield "WT", O.root([inst(kind, co, cs, at=at, inner=lambda: [O.R(tok()), wleaf()[0], O.R(tok())], lf=plain)])
     # ---- depth 1: every variant of every element (every optional child / attribute present or absent)
     for kind in ALL:
         for opts, shape in O.variants(kind):
@@ -642,6 +659,11 @@ def main(run):
         if a.malformed == 0:
             run.count("clause3_token_order_checked")
             run.count("clause3_runs_checked", len(a.runs))
+            for ft in ("run:text-in-w:t-of-m:r", "run:text-in-w:r"):
+                if ft in a.features:
+                    run.count("clause3_checked_with_" + ft)
+        if a.malformed == 0 and not a.unclaimed and ob.get("out") is not None and ("d:beg=empty" in a.features or "d:end=empty" in a.features):
+            run.count("clause5_template_compared_with_empty_delimiter_value")
         if not a.literal_brace:
             run.count("clause4_balance_checked")
         if ob.get("attempts", 1) > 1:
@@ -716,11 +738,14 @@ def main(run):
         run.count("template_compared_" + k, compared_kind.get(k, 0))
         run.require("template_compared_" + k, compared_kind.get(k, 0), 100)
     run.require("malformed_radical_trees", run.counters.get("malformed_radical_trees", 0), 300)
+    for ft in ("run:text-in-w:t-of-m:r", "run:text-in-w:r"):
+        run.require("clause3_checked_with_" + ft, run.counters.get("clause3_checked_with_" + ft, 0), 300)
+    run.require("clause5_template_compared_with_empty_delimiter_value", run.counters.get("clause5_template_compared_with_empty_delimiter_value", 0), 100)
     run.require("control_twins", run.counters.get("control_twins", 0), 50)
     for f in sorted(O.RISKY):
         run.require("risky:" + f, run.counters.get("risky:" + f, 0), 10)
     run.extras["bounded_exhaustive"] = {
-        "definition": "E1: every element x every optional child/attribute combination, with and without interleaved property elements; "
+        "definition": "WT: run text in <m:r><w:t> / <w:r><w:t> at top level and as each operand of each element; E1: every element x every optional child/attribute combination, with and without interleaved property elements; "
                       "E1-empty: every subset of operands empty; E2: depth 2 (quick: all variants x canonical both ways; thorough: all x one-factor both ways), "
                       "E2-width2: two items per operand; E3: depth 3 of canonical variants; MR/MR2: malformed radical x every continuation",
         "trees_per_family": dict(sorted(fam_counts.items())),
